@@ -47,5 +47,25 @@ def put(s,tag,body):
     return s[:i]+'\n'+body+s[j:]
 s=put(s,'FINDINGS',find)
 s=put(s,'SEEDED',seed)
+# per-check coverage summary from the committed evidence files
+claimed=open(f'{V}/tools/claimed.txt').read().split()
+rows=[]
+for pid in sorted(claimed):
+    ep=f'{V}/evidence/{pid}.json'; cj=f'{V}/harness/{pid.lower()}/check.json'
+    if not os.path.exists(ep) or not os.path.exists(cj): continue
+    e=json.load(open(ep)); c=json.load(open(cj)); cov=e['coverage']
+    cfgs=', '.join(x['config'] for x in cov.get('configurations',[]))
+    extra=''
+    if e['level']=='model_checking':
+        extra=f"states {cov.get('states',0):,}, transitions {cov.get('transitions',0):,}, traces validated {cov.get('traces_validated_against_impl',0):,}"
+    nm=len(glob.glob(f'{V}/mutants/{pid.lower()}/*.diff'))
+    seeds=[d for d in glob.glob(f'{V}/seeded/{pid}-*/')]
+    det=0
+    for d in seeds:
+        m=json.load(open(d+'meta.json'))
+        if m.get('verification',{}).get('detected') or m.get('detected_after_strengthening'): det+=1
+    rows.append(f"| {pid} | {e['level']} | {c.get('engine','E1-enum')} | {cfgs} | {cov['evaluations']:,} | {cov['distinct_nontrivial']:,} | {cov.get('distinct_outcomes','')} | {cov.get('exhaustive')} | {e['wall_s']:.0f} | {extra} | {nm} | {det}/{len(seeds)} |")
+covt='| check | level | engine | configurations (quick) | evaluations | distinct non-trivial | distinct outcomes | exhaustive | wall s | model-checking counts | own mutants | seeded detected |\n|---|---|---|---|---|---|---|---|---|---|---|---|\n'+'\n'.join(rows)+'\n'
+s=put(s,'COVERAGE',covt)
 open(f'{V}/DESIGN.md','w').write(s)
 print('fixed',len(fixed),'known',len(known),'seeded',len(rows))
